@@ -9,3 +9,14 @@ cd "$W" || exit 2
 export GIT_CONFIG_GLOBAL=/dev/null GIT_AUTHOR_NAME=p GIT_AUTHOR_EMAIL=p@e GIT_COMMITTER_NAME=p GIT_COMMITTER_EMAIL=p@e
 lint() { "$PINT" --offline --no-color -l error "$@" 2>&1; }
 nproblems() { grep -c -E '^(Fatal|Bug|Warning|Information): ' ; }
+# run a reproducer kept under hunt/<prop>/ (written by a defect-hunting agent): exit 1 + the word DEFECT = reproduced
+hunt_probe() {
+  local out rc
+  out=$(PINT="$PINT" bash "$VERIF_ROOT/hunt/$1/$2" 2>&1); rc=$?
+  rm -rf /tmp/hunt-$1-repo.* /tmp/hunt-$1-repro.* /tmp/hunt-$1-work.* 2>/dev/null
+  if [ $rc = 1 ] && echo "$out" | grep -q DEFECT; then exit 0; fi
+  if [ $rc = 0 ]; then exit 1; fi
+  echo "$out" | tail -5; exit 2
+}
+# the count= line(s) printed by hunt/C20/lib.sh runci
+hunt_counts() { PINT="$PINT" bash "$VERIF_ROOT/hunt/$1/$2" 2>&1 | grep -o 'count=[0-9]*' | tr '\n' ' '; rm -rf /tmp/hunt-$1-work.* 2>/dev/null; }
